@@ -40,6 +40,11 @@ CLAIMED = {
     note=TB + "Regular-expression matching is Python's re (the model receives the set of matching strings).",
     technique="Lean 4 proof (List.filter algebra) + model/implementation correspondence",
     design="7/C18"),
+  "C08": dict(
+    text="Lean 4 model of the whole graph construction (window clipping, node creation, the DFS enter/exit state machine over the C03 token order with its closure variables, the kernel loop with launch-delay / kernel-kernel / Stream Sync / Context Sync edges, the weight helper, edge attribution, networkx's edge replacement) that reproduces the implementation's edge set exactly on every generated trace. Theorems: C08_nodes_two_per_event, C08_edge_weight_rule (every edge weighs the time difference of its endpoints or 0; dependency and sync edges 0), C08_callstack_edges_forward (for any time-sorted token list the DFS emits only forward edges; invariant over the closure state) with sortToks_time_sorted, C08_forward_of_descs, C08_weights_nonneg (forward + weight rule => no negative weight), C08_kernel_edge_types (launch edge: start of the linked runtime call -> start of its kernel; kernel-kernel: end of the last kernel of the stream; sync: end of a stream's last kernel -> end of the waiting host call), C08_checkTopo_sound (a graph passing the rank certificate has no cycle). Per run, the proved checkers (topological certificate, weights, forward, types) are evaluated in Lean on the implementation's own graph, alongside full model/implementation equality and a Python oracle.",
+    note=TB + "Partial: stage 1 only (traces without cudaEventRecord / cudaStreamWaitEvent / Event Sync records, which the model does not yet cover); forwardness of kernel-loop edges and acyclicity are certified per run by proved checkers rather than proved for all inputs; the queue-length series (C14) and the links (C02) are inputs.",
+    technique="Lean 4 proof (state-machine invariants, certificate-checker soundness) + exact model/implementation graph correspondence",
+    design="7/C08"),
   "C11": dict(
     text="Lean 4 theorems over a model that keeps the list and the dictionary side by side as the class does: C11_inv_reachable (every reachable table is duplicate-free and the dictionary is exactly the inverse of the list), C11_ids_stable / C11_decode_stable (append-only: an assigned id never changes), C11_decode_encode, C11_reencode_correct (every rank's local ids re-encode to global ids that decode to the same strings), C11_global_any_order (for every permutation of the ranks' local tables the global table is a bijection on exactly the union of the vocabularies), C11_numbering_free. Tied to TraceSymbolTable by op sequences with repeats, to multi-rank parsing (sequential and pooled, with worker completion orders forced by injected delays) by the recorded sequence of local tables, and to hash-seed / pool independence by re-running a battery of eight analyses in subprocesses under other PYTHONHASHSEED values.",
     note=TB + "Partial for the scheduling clause: Pool.map's ordering guarantee is trusted, OS scheduling is not modelled, completion orders are forced for <= 3 ranks only. The manager-queue variant add_symbols_mp is checked for bijection, prefix stability and content only.",
